@@ -28,6 +28,11 @@ enum Step {
 	Reset(usize),
 	Stop,
 	Settle,
+	/// the peer stops / resumes reading its socket (back-pressure on the server's write path)
+	PauseReader(usize),
+	ResumeReader(usize),
+	/// a burst of calls with bulky replies: together with a paused reader it fills the server's write path
+	Clog(usize),
 }
 
 #[derive(Debug, Clone)]
@@ -44,6 +49,7 @@ struct Conn {
 	reader: Option<tokio::task::JoinHandle<()>>,
 	/// stamp at which the harness dropped / reset its end
 	peer_closed: Option<u64>,
+	paused: Arc<std::sync::atomic::AtomicBool>,
 }
 
 #[derive(Debug, Clone)]
@@ -65,7 +71,8 @@ fn draw_cmd(k: u32, pending: bool, payload: &mut u64) -> SubCmd {
 	*payload += 1;
 	if pending {
 		return match k {
-			0..=69 => SubCmd::Accept,
+			0..=49 => SubCmd::Accept,
+			50..=69 => SubCmd::AcceptTimeout(3),
 			70..=84 => SubCmd::Reject,
 			85..=92 => SubCmd::DropPending,
 			93..=96 => SubCmd::Return(0),
@@ -99,7 +106,10 @@ async fn scenario(prop: u32) {
 	let cap = *rt::pick("cap", &[1024u32, 0, 1, 2, 3]);
 	let n_conns = rt::draw_range("n_conns", 1, 2) as usize;
 	let collide = n_conns == 2 && rt::chance("collide", 1, 3);
-	let frag = if rt::chance("frag", 1, 4) { Frag { short: true, latency_ms: 0 } } else { Frag::default() };
+	let clogged_mode = rt::chance("clogged_mode", 1, 5);
+	let stream_cap = if clogged_mode { 64 } else { *rt::pick("stream_cap", &[0usize, 0, 64, 300]) };
+	let buf_cap = if clogged_mode { *rt::pick("buf_cap_clogged", &[1u32, 2]) } else { buf_cap };
+	let frag = if rt::chance("frag", 1, 4) { Frag { short: true, latency_ms: 0, cap: stream_cap } } else { Frag { cap: stream_cap, ..Frag::default() } };
 	let n_steps = rt::draw_range("n_steps", 4, 24);
 	let mut steps: Vec<Step> = Vec::new();
 	let mut faulted = false;
@@ -109,6 +119,8 @@ async fn scenario(prop: u32) {
 			0..=5 => Step::Subscribe(c),
 			6..=21 => Step::Cmd(rt::draw("which_sub", 6) as usize, rt::draw("cmd", 100)),
 			22..=25 => Step::Unsubscribe(c, rt::draw("unsub_kind", 6).min(3)),
+			27 if stream_cap > 0 => Step::PauseReader(c),
+			28 if stream_cap > 0 => Step::ResumeReader(c),
 			26 if !sweep_base && !faulted && i >= 3 => {
 				faulted = true;
 				match rt::draw("fault", 3) {
@@ -119,6 +131,13 @@ async fn scenario(prop: u32) {
 			}
 			_ => Step::Settle,
 		});
+	}
+	if clogged_mode {
+		// the peer of connection 0 stops reading and the write path fills up before anything else happens
+		steps.insert(0, Step::PauseReader(0));
+		steps.insert(1, Step::Clog(0));
+		let at = 2 + rt::draw("resume_at", (steps.len() - 1) as u32) as usize;
+		steps.insert(at.min(steps.len()), Step::ResumeReader(0));
 	}
 	// fault-position sweep: one fault placed before step `fault_at`
 	if let Some(at) = rt::param("fault_at") {
@@ -144,8 +163,14 @@ async fn scenario(prop: u32) {
 			WsOpen::Open(tx, mut rx) => {
 				let frames: Arc<Mutex<Vec<Frame>>> = Arc::default();
 				let f2 = frames.clone();
+				let paused = Arc::new(std::sync::atomic::AtomicBool::new(false));
+				let p2 = paused.clone();
 				let reader = rt::spawn("ws-reader", async move {
-					while let Some(f) = world::ws_recv(&mut rx).await {
+					loop {
+						while p2.load(std::sync::atomic::Ordering::Relaxed) {
+							tokio::time::sleep(Duration::from_millis(2)).await;
+						}
+						let Some(f) = world::ws_recv(&mut rx).await else { break };
 						let text = String::from_utf8_lossy(&f).to_string();
 						let st = rt::event("ws-frame", format!("c{ci} {}", text.chars().take(300).collect::<String>()));
 						let mut g = f2.lock().unwrap();
@@ -154,7 +179,7 @@ async fn scenario(prop: u32) {
 					}
 					rt::event("ws-reader-eof", format!("c{ci}"));
 				});
-				conns.push(Conn { tx: Some(tx), ctl, frames, reader: Some(reader), peer_closed: None });
+				conns.push(Conn { tx: Some(tx), ctl, frames, reader: Some(reader), peer_closed: None, paused });
 			}
 			_ => {
 				rt::violate(if prop == 4 { "C04" } else { "C06" }, "handshake-failed", "ws", "WebSocket handshake failed on a fresh server");
@@ -182,7 +207,7 @@ async fn scenario(prop: u32) {
 					let call_id = format!("s{k}");
 					let st = rt::event("dir-subscribe", format!("c{c} {call_id}"));
 					let msg = format!("{{\"jsonrpc\":\"2.0\",\"id\":\"{call_id}\",\"method\":\"sub\",\"params\":[{k}]}}");
-					if world::ws_send(tx, msg.as_bytes(), false).await.is_ok() {
+					if matches!(tokio::time::timeout(Duration::from_millis(200), world::ws_send(tx, msg.as_bytes(), false)).await, Ok(Ok(()))) {
 						sub_calls.push(SubCall { conn: *c, call_id, sent_stamp: st });
 					}
 					if collide {
@@ -216,7 +241,7 @@ async fn scenario(prop: u32) {
 					let call_id = format!("u{k}");
 					rt::event("dir-unsubscribe", format!("c{c} {call_id} target={t}"));
 					let msg = format!("{{\"jsonrpc\":\"2.0\",\"id\":\"{call_id}\",\"method\":\"unsub\",\"params\":[{t}]}}");
-					if world::ws_send(tx, msg.as_bytes(), false).await.is_ok() {
+					if matches!(tokio::time::timeout(Duration::from_millis(200), world::ws_send(tx, msg.as_bytes(), false)).await, Ok(Ok(()))) {
 						unsub_calls.push(UnsubCall { conn: *c, call_id, target: t });
 					}
 				}
@@ -251,17 +276,41 @@ async fn scenario(prop: u32) {
 				}
 			}
 			Step::Settle => tokio::time::sleep(Duration::from_millis(rt::draw_range("settle", 1, 30) as u64)).await,
+			Step::Clog(c) => {
+				if let Some(tx) = conns[*c].tx.as_mut() {
+					rt::event("dir-clog", format!("c{c}"));
+					for j in 0..6 {
+						let msg = format!("{{\"jsonrpc\":\"2.0\",\"id\":\"clog{k}-{j}\",\"method\":\"echo\",\"params\":[\"{}\"]}}", "z".repeat(80));
+						if !matches!(tokio::time::timeout(Duration::from_millis(200), world::ws_send(tx, msg.as_bytes(), false)).await, Ok(Ok(()))) {
+							break;
+						}
+					}
+				}
+			}
+			Step::PauseReader(c) => {
+				rt::event("dir-pause-reader", format!("c{c}"));
+				rt::probe("reader_paused");
+				conns[*c].paused.store(true, std::sync::atomic::Ordering::Relaxed);
+			}
+			Step::ResumeReader(c) => {
+				rt::event("dir-resume-reader", format!("c{c}"));
+				conns[*c].paused.store(false, std::sync::atomic::Ordering::Relaxed);
+			}
 		}
 		rt::yield_n(rt::draw("between", 3)).await;
 	}
 	// let every handler finish: tell all of them to return, then wait for quiescence
+	for c in &conns {
+		c.paused.store(false, std::sync::atomic::Ordering::Relaxed);
+	}
 	tokio::time::sleep(Duration::from_millis(50)).await;
 	rt::quiesce().await;
 	let final_cmd_stamp = rt::event("dir-finish-handlers", "");
 	{
 		let reg = world.subs.lock().unwrap();
 		for s in reg.iter() {
-			let _ = s.cmd.send(SubCmd::Return(0));
+			// half of the handlers end with a closing value (discarded unless the subscription was accepted)
+			let _ = s.cmd.send(SubCmd::Return(rt::draw("final_return", 2)));
 		}
 	}
 	rt::quiesce().await;
